@@ -287,6 +287,9 @@ func Main(o Options) {
 			budget = 20 * time.Minute
 		}
 	}
+	if b, _ := strconv.Atoi(argValue("--budget")); b > 0 {
+		budget = time.Duration(b) * time.Second
+	}
 	if rp := common.ReplayArg(); rp != "" {
 		replay(o, scs, cfg, rp)
 		return
@@ -433,7 +436,7 @@ func Summarize(c *common.Check, cfg Config, all []Stats, nscen int) {
 	c.Cov["exhaustive"] = exhaustive
 	c.Cov["bounds"] = map[string]any{"deviation_bound": cfg.Bound, "max_steps": cfg.MaxSteps, "scenarios": nscen, "max_deviations_seen": maxCost}
 	c.Cov["one_outcome_scenarios"] = vacuous
-	if len(perScenario) <= 60 {
+	if len(perScenario) <= 120 {
 		c.Cov["per_scenario"] = perScenario
 	}
 	c.Cov["explanation"] = "stateless DFS over scheduling decisions of the real code under the controlled runtime; states = complete executions; every execution is an execution of the implementation"
@@ -451,7 +454,7 @@ func replay(o Options, scs []*Scenario, cfg Config, path string) {
 		common.Broken("replay: %v", err)
 	}
 	for _, sc := range scs {
-		if sc.Name != doc.Replay.Scenario {
+		if sc.Name != strings.TrimPrefix(doc.Replay.Scenario, argValue("--strip-prefix")) {
 			continue
 		}
 		inst, x := runOnce(sc, cfg, doc.Replay.Choices)
